@@ -24,6 +24,28 @@ META = {
 THREAD_REPLICA = False   # this monitor uses a process-wide sys.monitoring probe / has its own thread trials
 
 
+import re  # noqa: E402
+
+
+def _script_zeros():
+    out = []
+    for cp in range(0x80, 0x110000):
+        c = chr(cp)
+        if unicodedata.category(c) == 'Nd' and unicodedata.decimal(c, None) == 0:
+            if all(unicodedata.decimal(chr(cp + i), None) == i for i in range(10)):
+                out.append(cp)
+    return out
+
+
+SCRIPT_ZEROS = _script_zeros()
+NONDECIMAL_DIGITS = [
+    {1: '\u00b9', 2: '\u00b2', 3: '\u00b3', 0: '\u2070', 4: '\u2074', 5: '\u2075', 6: '\u2076', 7: '\u2077', 8: '\u2078', 9: '\u2079'},
+    {i: chr(0x2080 + i) for i in range(10)},
+    {i: chr(0x2460 + i - 1) for i in range(1, 10)},
+    {i: chr(0x2776 + i - 1) for i in range(1, 10)},
+]
+
+
 def shards(tier):
     out = [{'name': 'codepoints%02d' % i, 'kind': 'cp', 'lo': lo, 'hi': min(lo + 0x8000, 0x110000)}
            for i, lo in enumerate(range(0, 0x110000, 0x8000))]
@@ -202,6 +224,53 @@ def work(shard, tier):
                             add(viols, 'C14|%s|lookalike-differs' % name,
                                 'validate(%r) = %r but the all-look-alike spelling %r gives %r' % (v, base, y, o),
                                 {'kind': 'mod', 'module': name, 'ascii': v, 'lookalike': y})
+                # (1c) every digit typed in another script (Unicode decimal digits Nd): if the module accepts that spelling
+                # at all it must denote the same number (a module may have a digit map of its own)
+                if any(ch.isdigit() for ch in v):
+                    for zero in (SCRIPT_ZEROS if tier == 'thorough' else rng.sample(SCRIPT_ZEROS, 12) + [0x0660, 0x06F0, 0xFF10]):
+                        y = ''.join(chr(zero + int(ch)) if ch in '0123456789' else ch for ch in v)
+                        o = C.short(C.outcome(mod.validate, y))
+                        evals += 1
+                        triples.add((name, 'script', hex(zero)))
+                        if o[0] == 'ok' and o != base and isinstance(o[1], str) and o[1].isascii():
+                            # (a non-ASCII result is a pass-through, which is C15's business, not a wrong translation)
+                            add(viols, 'C14|%s|other-script-digits-change-the-number' % name,
+                                'validate(%r) = %r but the same digits typed as %r give %r' % (v, base, y, o),
+                                {'kind': 'mod', 'module': name, 'ascii': v, 'lookalike': y})
+                    # characters with a digit value but no decimal value (superscripts, circled digits) must not be
+                    # turned into digits
+                    dpos = [i for i, ch in enumerate(v) if ch in '0123456789']
+                    for p in rng.sample(dpos, min(len(dpos), 3)):
+                        for fam in NONDECIMAL_DIGITS:
+                            a = fam.get(int(v[p]))
+                            if a is None:
+                                continue
+                            y = v[:p] + a + v[p + 1:]
+                            o = C.short(C.outcome(mod.validate, y))
+                            evals += 1
+                            triples.add((name, 'nondecimal', a))
+                            if o[0] == 'ok' and o == base and base[0] == 'ok':
+                                add(viols, 'C14|%s|non-decimal-character-read-as-digit' % name,
+                                    'validate(%r) = %r: U+%04X has no Unicode decimal value but was read as %s' % (y, o, ord(a), v[p]),
+                                    {'kind': 'mod', 'module': name, 'ascii': v, 'lookalike': y})
+                # (1d) the same number with leading zeros of its separated sections dropped, if that spelling is accepted:
+                # look-alike separators must then work as the ASCII ones do
+                parts = re.split(r'([ \-./])', v)
+                if len(parts) >= 3:
+                    short = ''.join((pt.lstrip('0') or '0') if i % 2 == 0 and pt.isdigit() else pt for i, pt in enumerate(parts))
+                    if short != v:
+                        bs = C.short(C.outcome(mod.validate, short))
+                        if bs[0] == 'ok':
+                            for ch in sorted(set(short)):
+                                for a in (inv.get(ch, [])[:6] if not ch.isalnum() else []):
+                                    y = short.replace(ch, a)
+                                    o = C.short(C.outcome(mod.validate, y))
+                                    evals += 1
+                                    triples.add((name, 'short-sections', a))
+                                    if o != bs:
+                                        add(viols, 'C14|%s|lookalike-differs' % name,
+                                            'validate(%r) = %r but the look-alike spelling %r gives %r' % (short, bs, y, o),
+                                            {'kind': 'mod', 'module': name, 'ascii': short, 'lookalike': y})
                 # (2) insert ASCII separators and, where accepted with the same result, their look-alikes
                 for sep in " -./:,*'":
                     alts = inv.get(sep, [])
